@@ -45,6 +45,8 @@ func VerifHarness_C06_roundtrip() {
 // VerifHarness_C06_structured: grammar productions with symbolic identifiers and literals (longer
 // texts than the raw-bytes harness can reach): label == 'v', label != "v", has(label), !has(label),
 // label in {'a','b'}, label not in {...}, label contains/starts with/ends with 'v', joined by && / ||.
+var verifLenientForms bool
+
 func verifStructuredText() string {
 	id := func(name string) string {
 		s := verifString(name, 2)
@@ -82,16 +84,28 @@ func verifStructuredText() string {
 			return id("l") + " starts with '" + lit("v", '\'') + "'"
 		case 8:
 			return id("l") + " ends with '" + lit("v", '\'') + "'"
+		case 10: // forms Parse may or may not tolerate: only Validate's agreement with Parse is asserted
+			return id("l") + " in {'" + lit("v", '\'') + "',}"
+		case 11:
+			return id("l") + " not in {'" + lit("v", '\'') + "' , \"" + lit("w", '"') + "\" , }"
+		case 12:
+			return id("l") + " in {}"
+		case 13:
+			return id("l") + " in {,}"
 		}
 		return "all()"
 	}
-	a := term(verifChoose("prod", 10))
+	nprod := 10
+	if verifLenientForms {
+		nprod = 14
+	}
+	a := term(verifChoose("prod", nprod))
 	text := a
 	switch verifChoose("join", 4) {
 	case 1:
-		text = a + " && " + term(verifChoose("prod", 10))
+		text = a + " && " + term(verifChoose("prod", nprod))
 	case 2:
-		text = a + " || " + term(verifChoose("prod", 10))
+		text = a + " || " + term(verifChoose("prod", nprod))
 	case 3:
 		text = "!(" + a + ")"
 	}
@@ -120,6 +134,7 @@ func VerifHarness_C06_structured() {
 // followed by stray tokens (and on the well-formed texts themselves).
 func VerifHarness_C06_validate() {
 	tails := []string{"", " )", ")", " }", " has(zz)", " &&", " ||", " 'v'", " zz", " !", ",", " ==", " all()", "("}
+	verifLenientForms = true
 	text := verifStructuredText() + tails[verifChoose("tail", len(tails))]
 	_, err := Parse(text)
 	verr := Validate(text)
